@@ -198,6 +198,11 @@ def run_property(prop: str, tier: str, seed: int, only=None) -> int:
                                "reached": r.get("oracle_reached", 0), "z3_checks": r.get("z3_checks", 0),
                                "cpu_s": r.get("cpu_s", 0)} for r in results],
             "errors": [{"cond": r["cond"], **e} for r in results for e in r.get("errors", [])][:10],
+            "e2": [{"cond": r["cond"], "domain": r.get("domain"), "encoded_statements": r.get("encoded_statements"),
+                    "templates": r.get("templates"), "validation_points": r.get("validation_points"),
+                    "queries": len(r.get("queries", [])),
+                    "query_verdicts": sorted({(q["query"], q["z3_5.1"], q["z3_4.8.12"]) for q in r.get("queries", [])}),
+                    "solver_secs": r.get("z3_secs")} for r in results if r.get("mode") == "E2"],
         },
         "assumptions": meta.get("assumptions", []) + [
             "CrossHair 0.0.110 / z3 models of the Python builtins are faithful (every counterexample is re-executed "
